@@ -42,6 +42,9 @@ CFG = PropCfg(
                                               for o in f["impl"]),
               nontrivial=lambda ops, outs: any(o.startswith("raw") for o in ops),
               classify=lambda op, out: _kind(op) + "->" + out.split(" ")[0][:8]),
+     # a session whose first tube is not a reliable user-authorization tube, through the real checkAuthorization
+     # (C05's harness and driver): refused, no crash
+     SuiteCfg("C11sess", binary="C05", parts_thorough=1, nontrivial=lambda ops, outs: any(o.startswith("badlogin") for o in ops)),
      # the decoder half: junk fed to every application-protocol reader (ok | err | panic, allocation
      # bucket), run by C18's harness binary
      next(SuiteCfg(s.name, binary="C18", stateless=s.stateless, signature=s.signature, nontrivial=s.nontrivial,
@@ -49,7 +52,9 @@ CFG = PropCfg(
                    observable=s.observable)
           for s in c18.CFG.suites if s.name == "C18junk")],
     extra_modules=["HopModel.Props.C11Decoders"],
-    rule="suite C18junk (decoder half, shared with C18): valid, damaged, truncated and random byte strings incl. "
+    rule="suite C11sess (C05's harness): the peer opens an UNRELIABLE tube of the user-authorization type, or a reliable "
+         "tube of another type, as the first tube of a session: hopSession.checkAuthorization refuses (no panic) and a "
+         "listed key is admitted afterwards. suite C18junk (decoder half, shared with C18): valid, damaged, truncated and random byte strings incl. "
          "announced lengths up to 4 MiB through ReadString, Intent/AgMessage/Certificate.ReadFrom, GetCmd, "
          "GetInitMsg, port-forward readPacket; observable ok|err|panic plus whether the allocation delta exceeds "
          "256 KiB. suite C11: a case is one real tubes.Muxer on a scripted MsgConn, run in a child process (a panic in a "
